@@ -6,6 +6,7 @@ package main
 
 import (
 	"fmt"
+	"math"
 	"math/rand"
 	"sort"
 	"strings"
@@ -41,11 +42,25 @@ func keyTok(s string) int {
 	return -1
 }
 
-// value tokens: 0 nil, v%3==2 a string, otherwise an int (same convention as StoreSem.tla)
+// value tokens: 0 nil; below 100: v%3==2 a string, otherwise an int; from 100 on values of kinds that cannot be compared
+// with == (slice, map, struct holding a slice), the two float zeroes (103: +0.0, 108: -0.0) and pointers
+// typed slices ([]int) (same convention as StoreSem.tla)
 func storeVal(v int) any {
 	switch {
 	case v == 0:
 		return nil
+	case v == 103:
+		return 0.0
+	case v == 108:
+		return math.Copysign(0, -1)
+	case v >= 100 && v%5 == 0:
+		return []any{v}
+	case v >= 100 && v%5 == 1:
+		return map[string]any{"t": v}
+	case v >= 100 && v%5 == 2:
+		return sStruct{S: []int{v}}
+	case v >= 100:
+		return []int{v} // a typed slice (the typed getters convert it)
 	case v%3 == 2:
 		return fmt.Sprintf("s%d", v)
 	default:
@@ -59,6 +74,31 @@ func storeValTok(x any) int {
 		return 0
 	case int:
 		return t
+	case float64:
+		if t == 0 && math.Signbit(t) {
+			return 108
+		}
+		if t == 0 {
+			return 103
+		}
+	case []any:
+		if len(t) == 1 {
+			if v, ok := t[0].(int); ok {
+				return v
+			}
+		}
+	case map[string]any:
+		if v, ok := t["t"].(int); ok && len(t) == 1 {
+			return v
+		}
+	case sStruct:
+		if len(t.S) == 1 {
+			return t.S[0]
+		}
+	case []int:
+		if len(t) == 1 {
+			return t[0]
+		}
 	case string:
 		var v int
 		if _, err := fmt.Sscanf(t, "s%d", &v); err == nil {
@@ -178,6 +218,19 @@ func applyStoreOp(s *flyt.SharedStore, o storeOp) (map[string]any, any) {
 		} else {
 			res["v"] = s.GetIntOr(keyName(o.K), o.D)
 		}
+	case "getslice":
+		// the typed slice getter: the []any view of a stored slice value, nil for anything else
+		sl := s.GetSlice(keyName(o.K))
+		res["ok"] = sl != nil
+		if len(sl) == 1 {
+			if v, ok := sl[0].(int); ok {
+				res["v"] = v
+			} else {
+				res["v"] = -1
+			}
+		} else if sl != nil {
+			res["v"] = -1
+		}
 	default:
 		fatal("unknown store op %q", o.Op)
 	}
@@ -295,17 +348,17 @@ func stepsToJSON(steps []seqStep) []any {
 	return l
 }
 
-var storeOps = []string{"set", "set", "set", "get", "get", "has", "delete", "len", "keys", "getall", "merge", "merge", "mergenil", "clear", "getint", "getint"}
+var storeOps = []string{"set", "set", "set", "get", "get", "has", "delete", "len", "keys", "getall", "merge", "merge", "mergenil", "clear", "getint", "getint", "getslice", "getslice"}
 
 func randStoreOp(r *rand.Rand, nKeys int) storeOp {
 	o := storeOp{Op: storeOps[r.Intn(len(storeOps))]}
 	switch o.Op {
 	case "set":
-		o.K, o.V = 1+r.Intn(nKeys), r.Intn(40)
+		o.K, o.V = 1+r.Intn(nKeys), randStoreValTok(r)
 		if r.Intn(6) == 0 {
 			o.V = 0
 		}
-	case "get", "has", "delete":
+	case "get", "has", "delete", "getslice":
 		o.K = 1 + r.Intn(nKeys)
 	case "getint":
 		o.K = 1 + r.Intn(nKeys)
@@ -324,14 +377,74 @@ func randStoreOp(r *rand.Rand, nKeys int) storeOp {
 				continue
 			}
 			seen[k] = true
-			o.M = append(o.M, [2]int{k, r.Intn(40)})
+			o.M = append(o.M, [2]int{k, randStoreValTok(r)})
 		}
 		sort.Slice(o.M, func(a, b int) bool { return o.M[a][0] < o.M[b][0] })
 	}
 	return o
 }
 
+// value tokens of all kinds; the uncomparable ones and the two float zeroes repeat often enough for a key to be
+// overwritten with a value of the kind it already holds
+var richToks = []int{100, 101, 102, 103, 108, 104, 105, 106, 107, 103, 108, 110, 111, 104, 109, 114}
+
+func randStoreValTok(r *rand.Rand) int {
+	if r.Intn(3) == 0 {
+		return richToks[r.Intn(len(richToks))]
+	}
+	return r.Intn(40)
+}
+
+// genChurnSeq: a long sequence dominated by Set / Delete of keys that exist, with a small live set - whatever the store
+// amortises over many removals happens several times; the answers are compared with the map throughout
+func genChurnSeq(r *rand.Rand) []seqStep {
+	n := 150 + r.Intn(500)
+	nKeys := 2 + r.Intn(10)
+	live := map[int]bool{}
+	var steps []seqStep
+	for i := 0; i < n; i++ {
+		var o storeOp
+		switch x := r.Intn(20); {
+		case x < 8 || len(live) == 0:
+			o = storeOp{Op: "set", K: 1 + r.Intn(nKeys), V: randStoreValTok(r)}
+			live[o.K] = true
+		case x < 16:
+			ks := make([]int, 0, len(live))
+			for k := range live {
+				ks = append(ks, k)
+			}
+			sort.Ints(ks)
+			o = storeOp{Op: "delete", K: ks[r.Intn(len(ks))]}
+			delete(live, o.K)
+		default:
+			o = randStoreOp(r, nKeys)
+			switch o.Op {
+			case "clear":
+				live = map[int]bool{}
+			case "set":
+				live[o.K] = true
+			case "delete":
+				delete(live, o.K)
+			case "merge":
+				for _, p := range o.M {
+					live[p[0]] = true
+				}
+			}
+		}
+		steps = append(steps, seqStep{Ev: "op", Op: o})
+		if o.Op == "delete" || o.Op == "set" {
+			// ask right away
+			steps = append(steps, seqStep{Ev: "op", Op: storeOp{Op: []string{"has", "get", "len"}[r.Intn(3)], K: o.K}})
+		}
+	}
+	steps = append(steps, seqStep{Ev: "op", Op: storeOp{Op: "getall"}}, seqStep{Ev: "op", Op: storeOp{Op: "keys"}}, seqStep{Ev: "op", Op: storeOp{Op: "len"}})
+	return steps
+}
+
 func genStoreSeq(r *rand.Rand) []seqStep {
+	if r.Intn(5) == 0 {
+		return genChurnSeq(r)
+	}
 	n := 1 + r.Intn(200)
 	nKeys := 2 + r.Intn(11)
 	var steps []seqStep
@@ -373,7 +486,24 @@ func runStoreConc(progs [][]storeOp) []Event {
 				mu.Lock() // call ticket: before invoking the store
 				evs = append(evs, Event{"ev": "call", "g": g + 1, "op": o.Op, "k": o.K, "v": o.V, "m": mJSON(o.M), "d": o.D})
 				mu.Unlock()
-				res, _ := applyStoreOp(s, o)
+				res := func() (res map[string]any) {
+					defer func() {
+						if p := recover(); p != nil {
+							// a panicking operation answers nothing a map would
+							res = noRes()
+							res["ok"], res["v"], res["n"] = true, -7, -7
+						}
+					}()
+					var snap any
+					res, snap = applyStoreOp(s, o)
+					// the snapshot is the caller's own: it may do with it what it likes
+					if m, ok := snap.(map[string]any); ok {
+						m[keyName(96)] = "written into the caller's snapshot"
+					} else if ks, ok := snap.([]string); ok && len(ks) > 0 {
+						ks[0] = "overwritten in the caller's snapshot"
+					}
+					return res
+				}()
 				mu.Lock() // return ticket: after it returned
 				evs = append(evs, Event{"ev": "ret", "g": g + 1, "res": res})
 				mu.Unlock()
